@@ -3,7 +3,7 @@ package main
 func init() {
 	register(&propInfo{
 		ID:          "C14",
-		Explanation: "Decides that each codec's Descriptor() mirrors what the codec encodes: (T.wire) Descriptor().Type and WireType() are in the documented relation for every codec; (T.desc-leaf) every codec type's resolved (Type, LogicalType) equals the table taken from the property statement (times carry the timestamp logical type, maps the map logical types, wrappers delegate to the wrapped codec); (T.desc-struct) StructCodec.Descriptor ranges over the same c.fields slice the encoder ranges over and sets Elements[i], Index and Name from fields[i].codec.Descriptor(), .index and .name, Type=Struct, TypeName=rtype.Name(), one element per encoded field; (T.name) BuildStructCodec sets the name to the Go field name and overrides it exactly under a non-empty json tag name; (T.desc-map) key/value descriptor indexes (1, 2) equal the indexes of the key/value wire tags, key parts come from the key codec and value parts from the value codec; (T.presence) ExplicitPresence for exactly pointer/null codecs; (X.dom.build) skipped and unexported fields never enter the field list; (T.key.overlay, T.key.self) the codec whose Descriptor a field gets is looked up under the field's own (type, tag option) - in the overlay registry used while a struct is built and in CodecForTypeRegistry.",
+		Explanation: "Decides that each codec's Descriptor() mirrors what the codec encodes: (T.wire) Descriptor().Type and WireType() are in the documented relation for every codec; (T.desc-leaf) every codec type's resolved (Type, LogicalType) equals the table taken from the property statement (times carry the timestamp logical type, maps the map logical types, wrappers delegate to the wrapped codec); (T.desc-struct) StructCodec.Descriptor ranges over the same c.fields slice the encoder ranges over and sets Elements[i], Index and Name from fields[i].codec.Descriptor(), .index and .name, Type=Struct, TypeName=rtype.Name(), one element per encoded field; (T.name) BuildStructCodec sets the name to the Go field name and overrides it exactly under a non-empty json tag name; (T.desc-map) key/value descriptor indexes (1, 2) equal the indexes of the key/value wire tags, key parts come from the key codec and value parts from the value codec; (T.presence) ExplicitPresence for exactly pointer/null codecs; (X.dom.build) skipped and unexported fields never enter the field list; (T.key.overlay, T.key.self) the codec whose Descriptor a field gets is looked up under the field's own (type, tag option) - in the overlay registry used while a struct is built and in CodecForTypeRegistry; (T.kind) every reflect.Kind clause of CodecForTypeRegistry hands a named type to the codec of the basic type of that same kind, so `type Port uint16` is described as Uint and not as Int.",
 		NotDecided:  "Recursion termination of Descriptor() on recursive types; exact names for odd json tags beyond 'text before the first comma'.",
 		Assumptions: []string{"A5"},
 		Run: func(c *Ctx) {
@@ -24,6 +24,8 @@ func init() {
 			// the field's descriptor is that of the codec the field's (type, tag option) selects
 			ruleOverlayKey(c)
 			ruleKeySelf(c)
+			// a named type is described by the codec of the basic type of its own kind (C14-r14-m3)
+			ruleKind(c)
 		},
 	})
 }
